@@ -46,6 +46,8 @@ func (row *BrokerRow) FromBlock(block []byte) {
 	size := flatbuffers.GetSizePrefix(row.buffer, 0)
 	partition := row.buffer[flatbuffers.SizeUOffsetT : flatbuffers.SizeUOffsetT+size]
 	row.m.Init(partition, flatbuffers.GetUOffsetT(partition))
+	// rows are reused(batch is pooled), the mark of previous metric must not leak into this one
+	row.IsOutOfTimeRange = false
 }
 
 func (row *BrokerRow) Metric() flatMetricsV1.Metric { return row.m }
